@@ -497,7 +497,8 @@ func runGenForced(t *testing.T, g genCfg, x *xplore.Ctx, forceWord, forceExt int
 		pathRule, full = true, true
 	case "BuildDirectory":
 		var ch []testutil.DirEntry
-		for i, p := range []string{"a", "sub/b", "/abs/c d", "é"} {
+		// incl. siblings that share a stem and differ in the extension only
+		for i, p := range []string{"a", "sub/b", "/abs/c d", "é", "report.pdf", "report.txt", "~after", "~after.d"} {
 			f := testutil.GenerateFile(t, ls, rnd, 3+i)
 			f.Path = p
 			ch = append(ch, f)
